@@ -28,14 +28,11 @@ def klass_of_adt(adt):
     return None
 
 
-_STATIC = {}
-
-
 def static_classes(b):
     """what a local holds, where a single definition says so whatever the path: the compressed / the raw chunk object ('Cobj' /
     'Robj'), its bytes ('Cdata' / 'Rdata' - also as a plain slice handed to a helper), the length of either"""
-    if b.id in _STATIC:
-        return _STATIC[b.id]
+    if getattr(b, '_static_classes', None) is not None:
+        return b._static_classes
     cls = {}
     for l in range(len(b.locals)):
         k = klass_of_adt(pointee_adt(b, l))
@@ -68,7 +65,7 @@ def static_classes(b):
             if got:
                 cls[l] = got
                 changed = True
-    _STATIC[b.id] = cls
+    b._static_classes = cls          # (kept on the body: a process evaluates many variants of the tree, ids repeat)
     return cls
 
 
@@ -356,6 +353,13 @@ def run(facts, cg=None):
             finding(b, 'reader-no-unique-comparison', 'reader has %d comparisons of source_size with the fetched length' % len(sites))
             continue
         bi, si, st, ka, kb = sites[0]
+        # every chunk is built behind that comparison: a path around it (`flag && size == len`: with the flag off the sizes are
+        # never compared) hands a chunk that was stored as it is to the decompressor
+        dom_ = b.dominators()
+        for abi, ast_ in aggs:
+            if not (bi == abi or bi in dom_.get(abi, ())):
+                finding(b, 'reader-bypass', 'the chunk built at %s can be reached without the stored size having been compared with the source size (%s): a chunk '
+                        'stored raw is then treated as compressed' % (ast_['loc'], st['loc']))
         row = {}
         for rel in ('equal', 'unequal'):
             # evaluate for equal and for both unequal orderings
